@@ -424,18 +424,30 @@ func judge(c Case) vdrv.Verdict {
 	flag(c.Compose, "composed-esbuild-pass")
 	flag(c.Originals != nil, "composed-own-step")
 	if c.Originals != nil {
-		inline, sibling, sections := false, false, false
+		inline, sibling, sections, unsorted, inNames, noContent, nullContent := false, false, false, false, false, false, false
+		var maps []string
 		for _, code := range c.Files {
 			if b, ok := smref.InlineURL(code); ok {
 				inline = true
-				sections = sections || strings.Contains(string(b), "\"sections\"")
+				maps = append(maps, string(b))
 			} else {
 				sibling = true
 			}
 		}
 		for _, m := range c.MapFiles {
-			sections = sections || strings.Contains(m, "\"sections\"")
+			maps = append(maps, m)
 		}
+		for _, m := range maps {
+			sections = sections || strings.Contains(m, "\"sections\"")
+			inNames = inNames || strings.Contains(m, "\"names\":[\"")
+			noContent = noContent || !strings.Contains(m, "\"sourcesContent\"")
+			nullContent = nullContent || strings.Contains(m, "\"sourcesContent\":[null")
+			unsorted = unsorted || inputMapUnsorted([]byte(m))
+		}
+		flag(unsorted, "own-step:unsorted-segments")
+		flag(inNames, "own-step:input-names")
+		flag(noContent, "own-step:content-from-disk")
+		flag(nullContent, "own-step:content-null-from-disk")
 		flag(inline, "own-step:inline-map")
 		flag(sibling, "own-step:sibling-map")
 		flag(sections, "own-step:index-map")
